@@ -50,6 +50,19 @@ class Unsupported(Exception):
     """A call outside the modelled subset of h5py was made."""
 
 
+class _Surface:
+    """Any h5py attribute or method outside the modelled subset raises `Unsupported`
+    (not AttributeError): the stand-in does not know what h5py would do."""
+
+    _ABSENT = ()
+
+    def __getattr__(self, name):
+        if name.startswith('_') or name in type(self)._ABSENT:
+            raise AttributeError('%r object has no attribute %r' % (type(self).__name__, name))
+        raise Unsupported('h5py attribute %r of %s is not modelled by the stand-in'
+                          % (name, type(self).__name__))
+
+
 def _split(path):
     if isinstance(path, bytes):
         path = path.decode()
@@ -58,7 +71,7 @@ def _split(path):
     return [c for c in path.split('/') if c != '']
 
 
-class Dataset:
+class Dataset(_Surface):
     """One-dimensional dataset backed by a numpy array."""
 
     def __init__(self, root, loc, shape, maxshape, dtype):
@@ -142,7 +155,12 @@ class Dataset:
         return self._a.tobytes()
 
 
-class Group:
+class Group(_Surface):
+    # attributes of h5py.Dataset that h5py.Group does not have (plain AttributeError in h5py)
+    _ABSENT = ('shape', 'dtype', 'size', 'ndim', 'nbytes', 'maxshape', 'chunks', 'fillvalue', 'resize',
+               'len', 'astype', 'asstr', 'fields', 'read_direct', 'write_direct', 'flush', 'refresh',
+               'make_scale', 'dims', 'is_virtual', 'compression', 'scaleoffset', 'shuffle')
+
     def __init__(self, root, loc):
         self._root = root if root is not None else self
         self.loc = tuple(loc)
